@@ -98,3 +98,40 @@ extern "C" void h_c05_cleanup(unsigned long with_lookup, unsigned long nticks) {
         }
     }
 }
+// provider contacts learned from other peers: chunk X has two providers with symbolic lifetimes, an unrelated chunk Y one; over
+// `nticks` ticks at symbolic times, after every cleanup tick the table holds no expired contact or locator (TTL audit healthy)
+extern "C" void h_c05_contacts(unsigned long nticks) {
+    PartialNode pn; Node* n = pn.node();
+    const std::uint8_t interval = (nondet_u8("cleanup_interval_s") & 3) + 1; n->config_.cleanup_interval = std::chrono::seconds(interval);
+    verif_env::start_clock();
+    const long long t0 = verif_env::g_steady_ns;
+    verif_env::g_system_ns = 700000 * kNs + (t0 - 5000 * kNs);
+    n->last_cleanup_ = std::chrono::steady_clock::time_point(std::chrono::nanoseconds(t0));
+    const ChunkId x = chunk_n(1), y = chunk_n(2);
+    long long deadline[3];
+    for (unsigned i = 0; i < 3; ++i) {
+        const std::uint8_t ttl = (nondet_u8("contact_ttl_s") & 15) + 1;
+        PeerContact c{}; c.id[0] = static_cast<std::uint8_t>(0xE0 + i); c.id[31] = static_cast<std::uint8_t>(i + 1); c.address = "10.0.0.1:4000";
+        c.expires_at = std::chrono::steady_clock::time_point(std::chrono::nanoseconds(t0 + static_cast<long long>(ttl) * kNs));
+        deadline[i] = t0 + static_cast<long long>(ttl) * kNs;
+        n->dht_.add_contact(i < 2 ? x : y, std::move(c), std::chrono::seconds(ttl));
+    }
+    auto advance = [&]() { const long long before = verif_env::g_steady_ns; verif_env::advance_clock(); verif_env::g_system_ns += verif_env::g_steady_ns - before; };
+    for (unsigned long t = 0; t < nticks; ++t) {
+        advance();
+        const long long now = verif_env::g_steady_ns;
+        const bool cleanup_due = now - n->last_cleanup_.time_since_epoch().count() >= static_cast<long long>(interval) * kNs;
+        n->tick();
+        (void)n->drain_cleanup_notifications();
+        if (cleanup_due) {
+            const auto audit = n->audit_ttl();
+            verif_assert(audit.expired_contacts.empty() && audit.expired_locator_chunks.empty(), "C05: after a cleanup tick the node holds no expired provider contact or locator (TTL audit)");
+            for (const auto& loc : n->dht_.snapshot_locators()) for (const auto& c : loc.holders) verif_assert(c.expires_at.time_since_epoch().count() > now, "C05: every provider contact still held after a cleanup tick is live");
+            for (unsigned i = 0; i < 3; ++i) if (now < deadline[i]) {
+                bool found = false; for (const auto& c : n->dht_.find_providers(i < 2 ? x : y)) if (c.id[31] == i + 1) found = true;
+                verif_assert(found, "C05/C06: a cleanup tick does not drop a live provider contact");
+            }
+            verif_reach("cleaned-contacts");
+        }
+    }
+}
